@@ -7,7 +7,7 @@ from multiprocessing import Pool
 import numpy as np
 
 from .. import accept as A
-from .C10 import frank_tau, get_cases, given_cases, pseudo_obs, _bucket
+from .C10 import frank_limit, frank_tau, get_cases, given_cases, pseudo_obs, _bucket
 
 LEVEL = 'exploration'
 
@@ -41,7 +41,7 @@ def _check(case):
         ok = abs(th - et) <= 1e-9 * max(1, abs(et))
     else:
         et = None
-        ok = th != 0 and not math.isnan(th) and abs(frank_tau(th) - exp_tau) <= 5e-3
+        ok = th != 0 and not math.isnan(th) and abs(frank_tau(th) - exp_tau) <= frank_limit(exp_tau)
     if not ok:
         probs.append(('theta-is-not-the-family-calibration', '%s theta=%r expected %r tau=%r' % (fam, th, et, exp_tau)))
     # determinism: another global RNG state, a copy, permuted rows, the deprecated alias
@@ -54,6 +54,40 @@ def _check(case):
     for name, c in zip(('second-call', 'permuted-rows', 'deprecated-alias'), others):
         if c.copula_type != c1.copula_type or not (float(c.theta) == th or abs(float(c.theta) - th) <= 1e-12 * max(1, abs(th))):
             probs.append(('not-deterministic:' + name, '%s/%r vs %s/%r' % (fam, th, c.copula_type.name, float(c.theta))))
+    return probs
+
+
+def _neighbours(job):
+    """a sequence of data sets whose Kendall taus differ by a few 1e-4 (one more adjacent transposition each), selected one after
+    the other in one process: each answer must be the calibration of its own tau, whatever was asked before"""
+    from scipy import stats
+    from copulas.bivariate import select_copula
+    fam, tau, seed, n, steps = job
+    rs = np.random.RandomState(seed)
+    X = np.clip(draw(fam, theta_of(fam, tau), n, rs), 1e-9, 1 - 1e-9)
+    order = np.argsort(X[:, 1])
+    probs = []
+    for k in range(steps):
+        if k:
+            a, b = order[(7 * k) % (n - 1)], order[(7 * k) % (n - 1) + 1]
+            X[a, 1], X[b, 1] = X[b, 1], X[a, 1]
+        exp_tau = float(stats.kendalltau(X[:, 0], X[:, 1])[0])
+        try:
+            c = select_copula(X.copy())
+        except Exception as ex:
+            probs.append(('raised-' + type(ex).__name__, 'step %d' % k))
+            continue
+        name, th = c.copula_type.name, float(c.theta)
+        if abs(float(c.tau) - exp_tau) > 1e-12:
+            probs.append(('tau-is-not-kendall-tau', 'step %d: got %r expected %r' % (k, float(c.tau), exp_tau)))
+        if name == 'CLAYTON':
+            ok = abs(th - 2 * exp_tau / (1 - exp_tau)) <= 1e-9 * max(1, abs(th))
+        elif name == 'GUMBEL':
+            ok = abs(th - 1 / (1 - exp_tau)) <= 1e-9 * max(1, abs(th))
+        else:
+            ok = th != 0 and not math.isnan(th) and abs(frank_tau(th) - exp_tau) <= frank_limit(exp_tau)
+        if not ok:
+            probs.append(('theta-is-not-the-family-calibration', 'step %d of a sequence of neighbouring data sets: %s theta=%r tau=%r' % (k, name, th, exp_tau)))
     return probs
 
 
@@ -104,7 +138,7 @@ def run(ctx):
                 'calibration, identically on a second call with another global RNG state, on permuted rows and through the deprecated alias; '
                 '(b) recovery: samples of n=3000 and 7777 (thorough: also 5000, 12345) from Clayton / Frank / Gumbel drawn by independent samplers (conditional inverse, '
                 'Marshall-Olkin) at tau 0.3, 0.5, 0.7, %s seeds per cell; TLC (Acceptance) requires >= 70 %% recovered per cell. '
-                'non-trivial = positive tau (more than one candidate); distinct by input') % (('6', '10') if quick else ('7', '40'))
+                '(c) five sequences of 14 neighbouring data sets (n = 150..400, taus a few 1e-4 apart) selected one after the other in one process: each answer is the calibration of its own tau.  non-trivial = positive tau (more than one candidate); distinct by input') % (('6', '10') if quick else ('7', '40'))
     ctx.assumptions = ['the scoring arithmetic of select_copula is not pinned (any member of the candidate set is accepted)',
                        'recovery samplers are the harness\'s own (not the library\'s)']
     cases = get_cases(ctx, 6 if quick else 7, 4 if quick else 5, given_cases(ctx.seed + 2, 60 if quick else 500))
@@ -115,6 +149,15 @@ def run(ctx):
         jobs = [(f, t, ctx.seed * 1000 + 17 * i + j + n, n) for f in ('CLAYTON', 'FRANK', 'GUMBEL') for j, t in enumerate((0.3, 0.5, 0.7))
                 for n in sizes for i in range(ns)]
         rec = pool.map(_recover, jobs, chunksize=2)
+        njobs = [(f, t, ctx.seed * 31 + i, n, 14) for i, (f, t, n) in enumerate((('FRANK', 0.45, 150), ('FRANK', 0.2, 400), ('CLAYTON', 0.5, 150),
+                                                                               ('GUMBEL', 0.6, 200), ('FRANK', 0.7, 250)))]
+        nres = pool.map(_neighbours, njobs, chunksize=1)
+    for job, probs in zip(njobs, nres):
+        ctx.case('neighbours|' + json.dumps(job))
+        for p, detail in probs:
+            ctx.violation('C11|select_copula|%s|neighbour-sequence' % p, 'select_copula: %s (%s family sample, n=%d)' % (detail, job[0], job[3]),
+                          {'rerun': ['harness.props.C11._neighbours', list(job)]})
+    ctx.traces += len(njobs)
     for case, probs in zip(cases, res):
         ctx.case(json.dumps([case['x'], case['y']]), nontrivial=(case['s'] > 0 and case['d1'] > 0 and case['d2'] > 0))
         for p, detail in probs:
